@@ -197,6 +197,7 @@ func vxNameTable(k int) {
 	var ti [4]uint8
 	var got [4]string
 	var valid [4]bool
+	tookReserved := false
 	for i := 0; i < k; i++ {
 		isGet := vx.Nondet[bool]("isGet")
 		n := vx.Nondet[uint8]("name")
@@ -206,7 +207,7 @@ func vxNameTable(k int) {
 			got[i] = tm.GetFuncName(uni[ti[i]]...)
 			valid[i] = true
 			if _, r := reserved[got[i]]; r {
-				vx.Assert(false, "a helper name is never one the user calls elsewhere")
+				tookReserved = true
 			}
 		} else {
 			nn, err := tm.SetFuncName(names[n], uni[ti[i]]...)
@@ -231,11 +232,12 @@ func vxNameTable(k int) {
 			}
 		}
 	}
+	vx.Assert(!tookReserved, "a helper name is never one the user calls elsewhere")
 	vx.Assert(ok, "every name handed out is bound to exactly the requested types; one name never serves two type lists")
 	// generate-until-done: each pending type list is generated exactly once
 	rounds := 0
 	gen := 0
-	for !tm.Done() && rounds < 6 {
+	for !tm.Done() && rounds < 3 {
 		for _, typs := range tm.ToGenerate() {
 			tm.Generating(typs...)
 			gen++
